@@ -547,6 +547,18 @@ def scenario_case(d, kind, weights):
             msg(0, m)
         for _ in range(d.int(1, 4)):
             msg(0, g.next(d))
+    elif kind == 'blanks-in-string':
+        # a string alternative with a run of blanks inside, given through one of the spellings gdb offers (`wl breakpoint X`,
+        # `wlbreakpoint X`, `wl  b  X`): the text between the quotes is the string, blank for blank
+        g = start(0)
+        a, b = d.choice([('My  App', 'My App'), ('a   b', 'a b'), ('x  ', 'x '), ('Q3  report', 'Q3 report')])
+        cmd('breakpoint !')
+        via = d.choice(['wl', 'wlbreakpoint', 'wlbreakpoint'])
+        ops.append(['cmd', via, (d.choice(['breakpoint ', 'b  ', 'break ']) if via == 'wl' else '') + '("%s")' % a])
+        for w in d.perm([a, b, a]):
+            if 2 in g.live:
+                msg(0, dict(sent=g.sent(True), iface='wl_registry', id=2, name='global', args=[['uint', d.int(1, 60)], ['str', w], ['uint', d.int(1, 9)]]))
+            msg(0, g.next(d, d.choice(['sync', 'message'])))
     elif kind == 'star-after-exclusion':
         g = start(0)
         cmd('breakpoint ' + d.choice(['wl_callback', 'wl_display', '.bind', 'wl_registry']) + ' ! ' + d.choice(['.delete_id', '.sync', 'wl_display', '.done']))
